@@ -40,6 +40,10 @@ func WorkerMain(handle func(task json.RawMessage) any) {
 	}
 }
 
+// WorkerRetired is what a worker writes to stderr before it exits because it must not run another task (a goroutine of
+// an earlier task is still running in it).
+const WorkerRetired = "VERIF-WORKER-RETIRED"
+
 // TaskOutcome is what the pool reports per task.
 type TaskOutcome struct {
 	Index    int
@@ -128,6 +132,15 @@ func (p *Pool) Run(tasks []any, handle func(TaskOutcome)) {
 				}
 				b, _ := json.Marshal(tasks[i])
 				out := p.workers[slot].do(b, o.TaskTimeout)
+				if out.Crashed && strings.Contains(out.Stderr, WorkerRetired) {
+					// the worker took itself out of service before touching this task (see WorkerRetired): a fresh one does it
+					p.workers[slot].stop()
+					p.workers[slot] = nil
+					if wk, err := startWorker(o); err == nil {
+						p.workers[slot] = wk
+						out = wk.do(b, o.TaskTimeout)
+					}
+				}
 				out.Index = i
 				if out.Crashed || out.TimedOut {
 					p.workers[slot].stop()
